@@ -231,10 +231,30 @@ def build():
             ("Hasher.dispatch/set-is-order-normalised", table.get(set) == "save_set" and "save_set" in methods, "dispatch[set] -> %s" % table.get(set)),
             ("Hasher.dispatch/dict-is-order-normalised", dict not in table and "_batch_setitems" in methods,
              "dict keeps the base save_dict, which calls the overridden _batch_setitems"),
-            ("Hasher.dispatch/frozenset-is-order-normalised", table.get(frozenset) in ("save_set", "save_frozenset") ,
+            ("Hasher.dispatch/frozenset-is-order-normalised", frozenset in table and table.get(frozenset) in methods,
              "dispatch[frozenset] -> %s (absent: falls back to save_reduce with list(obj) in iteration order)" % table.get(frozenset)),
         ]
-        return out
+        # (the value types of the property's universe; function-like types legitimately share save_global, which pickles by qualified name)
+        vtable = {t: h for t, h in table.items() if t in (set, frozenset, dict, list, tuple, str, bytes, int, float, bool, type(None))}
+        out_discr = [
+            # type discrimination: a handler replaces the value by a stand-in (e.g. _ConsistentSet(items)) that keeps the members only, so two
+            # builtin types served by ONE handler get equal digests for equal members (seeded change: dispatch[frozenset] = save_set)
+            ("Hasher.dispatch/one-handler-per-type", len(set(vtable.values())) == len(vtable),
+             "handlers shared by several builtin value types: %s" % sorted(h for h in set(vtable.values()) if list(vtable.values()).count(h) > 1)),
+        ]
+        return out_discr if only_discrimination else out
 
-    p.structural = [dispatch_table]
+    only_discrimination = False
+
+    def dispatch_discrimination(pack):
+        nonlocal only_discrimination
+        only_discrimination = True
+        try:
+            return dispatch_table(pack)
+        finally:
+            only_discrimination = False
+
+    dispatch_table.props = ["C08", "C06"]
+    dispatch_discrimination.props = ["C08", "C02"]  # C02 relies on "different arguments, different keys"
+    p.structural = [dispatch_table, dispatch_discrimination]
     return p
